@@ -106,6 +106,14 @@ fn head_sig(prog: &T) -> String {
 
 /// Find the smallest subprogram class responsible: walk into the program looking for the
 /// first construct of a known-delicate kind.
+pub fn c06_sig_pub(prog: &T) -> String {
+    c06_sig(prog)
+}
+
+pub fn complete_tree_pub(depth: usize, next: &mut i64) -> T {
+    complete_tree(depth, next)
+}
+
 fn c06_sig(prog: &T) -> String {
     fn scan(t: &T, found: &mut Vec<String>) {
         match t {
@@ -621,4 +629,72 @@ pub fn c04(thorough: bool, replay: Option<String>) -> i32 {
         st,
     );
     rep.finish()
+}
+
+// ---------------------------------------------------------------------------
+/// Well-formed CLVM expressions of nesting depth <= 2 (random access by index).
+/// Leaves: paths 1, 2, 5 and three quoted constants. Depth 1: f r l c + = i a over leaves.
+/// Depth 2: unary/binary operators over (leaves + depth 1), `i` with one nested argument.
+pub struct ExprSpace {
+    pub d1: Vec<T>,
+    pub nl: usize,
+    pub total: u64,
+}
+
+impl ExprSpace {
+    pub fn new() -> ExprSpace {
+        let op = |b: u8| T::a(&[b]);
+        let leaves: Vec<T> = vec![T::a(&[1]), T::a(&[2]), T::a(&[5]), quote(T::int(7)), quote(T::nil()), quote(T::p(T::int(3), T::int(4)))];
+        let nl = leaves.len();
+        let mut d1 = leaves.clone();
+        for l in &leaves {
+            for o in [5u8, 6, 7] {
+                d1.push(T::list(&[op(o), l.clone()]));
+            }
+        }
+        for a in &leaves {
+            for b in &leaves {
+                for o in [4u8, 16, 9] {
+                    d1.push(T::list(&[op(o), a.clone(), b.clone()]));
+                }
+                d1.push(T::list(&[op(2), quote(a.clone()), b.clone()]));
+                for c in &leaves {
+                    d1.push(T::list(&[op(3), a.clone(), b.clone(), c.clone()]));
+                }
+            }
+        }
+        let n = d1.len() as u64;
+        let total = 3 * n + 4 * n * n + 3 * n * (nl * nl) as u64;
+        ExprSpace { d1, nl, total }
+    }
+    pub fn get(&self, mut i: u64) -> T {
+        let op = |b: u8| T::a(&[b]);
+        let n = self.d1.len() as u64;
+        if i < 3 * n {
+            return T::list(&[op([5u8, 6, 7][(i / n) as usize]), self.d1[(i % n) as usize].clone()]);
+        }
+        i -= 3 * n;
+        if i < 4 * n * n {
+            let o = i / (n * n);
+            let a = &self.d1[((i / n) % n) as usize];
+            let b = &self.d1[(i % n) as usize];
+            return match o {
+                0 => T::list(&[op(4), a.clone(), b.clone()]),
+                1 => T::list(&[op(16), a.clone(), b.clone()]),
+                2 => T::list(&[op(9), a.clone(), b.clone()]),
+                _ => T::list(&[op(2), quote(a.clone()), b.clone()]),
+            };
+        }
+        i -= 4 * n * n;
+        let nl = self.nl as u64;
+        let pos = i / (n * nl * nl);
+        let d = &self.d1[((i / (nl * nl)) % n) as usize];
+        let x = &self.d1[((i / nl) % nl) as usize];
+        let y = &self.d1[(i % nl) as usize];
+        match pos {
+            0 => T::list(&[op(3), d.clone(), x.clone(), y.clone()]),
+            1 => T::list(&[op(3), x.clone(), d.clone(), y.clone()]),
+            _ => T::list(&[op(3), x.clone(), y.clone(), d.clone()]),
+        }
+    }
 }
